@@ -160,7 +160,7 @@ theorem cmpV_int_val {op : Cmp} {x y : Val} (hp : Plain s) (hx : IsIntV x) (hy :
     · simp only at h
       obtain ⟨sm, r, rfl, vr⟩ := cmpLV_int_val hp (o := .int _) trivial h
       exact ⟨sm, r, rfl, by rw [vr, cmpSem_mirror]; rfl⟩
-  · exact cmpLV_int_val hp hy h
+  · cases y <;> simp only [IsIntV] at hy <;> simp only at h <;> exact cmpLV_int_val hp trivial h
 
 /-! ### `//`, `%`, `divmod`, `/` -/
 theorem divmodV_int_val {w : DM} (ho : IsIntV o) (h : divmodV w (.lc a) o s = .ok (v, s')) :
@@ -228,6 +228,13 @@ theorem rshiftLV_int_val {n : Int} (hn : 0 ≤ n) (hi : s.ignoreErrors = false)
   obtain ⟨rfl, rfl⟩ := pure_ok' h
   obtain ⟨sm, -, vr⟩ := rshiftLI_val hn hi h1
   exact ⟨sm, by rw [num_ofFB, vr]⟩
+
+/-- a completed `x >> n` with a public count had `n ≥ 0` (a negative count raises `ValueError`) -/
+theorem rshiftLV_int_nonneg {n : Int} (h : rshiftLV a (.int n) s = .ok (v, s')) : 0 ≤ n := by
+  unfold rshiftLV at h
+  simp only at h
+  obtain ⟨r, s1, h1, -⟩ := bind_ok.mp h
+  exact rshiftLI_ok_nonneg h1
 
 /-- Python's `&`, `|`, `^` on non-negative integers -/
 def bwSem : BW → Nat → Nat → Nat
